@@ -8,6 +8,9 @@
 //	               operation overflows iff the 8-bit one does and its result is the 8-bit result << k.
 //	-mode witness  -in: one behaviour per line = [ {act:"Witness", w, signed, cls, a, b, okAdd, rAdd, ...} ]
 //	               (numbers as decimal strings) = Apalache models of OverflowW.tla for the wide types.
+//	               {act:"WitnessOp", w, signed, op, a, b, ok, r, cls} = one operation of a model of the
+//	               class-coverage guard (OverflowB.tla).
+//	-mode sweep    boundary-directed replay on every type, see sweep.go.
 //	-mode case     -x <json of a reported case>: re-run one reported mismatch.
 //
 // Verdict observables (C19): the boolean of Add/Sub/Mul/Div, the result when the spec says
@@ -31,9 +34,14 @@ var (
 	nMis     int64
 	nEval    int64
 	nPanics  int64
+	nOracle  int64
 )
 
 func report(key, what string, c map[string]any) {
+	if sweepMode {
+		sweepReport(key, what, c)
+		return
+	}
 	mu.Lock()
 	defer mu.Unlock()
 	nMis++
@@ -137,6 +145,22 @@ func doRow(s mbt.Step) {
 		mbt.Die("malformed row for a=%d", a)
 	}
 	ovf := 4 * 256
+	// the exact-integer evaluator of the sweep (sweep.go) against TLC's table, on every pair of this row
+	{
+		w8min, w8max := bounds(8, signed)
+		tabs := [4][]int{add, sub, mul, div}
+		for op := 0; op < 4; op++ {
+			for i, e := range tabs[op] {
+				y := big.NewInt(w8min.Int64() + int64(i))
+				r, def := exact(op, big.NewInt(int64(a)), y)
+				ok := def && inRange(r, w8min, w8max)
+				if ok != (e != ovf) || (ok && r.Int64() != int64(e)) {
+					mbt.Die("sweep evaluator disagrees with the TLC table: op %d a=%d b=%s table=%d evaluator=(%v,%s)", op, a, y, e, ok, r)
+				}
+				nOracle++
+			}
+		}
+	}
 	if signed {
 		rowOn[int8]("int8", 0, a, -128, ovf, add, sub, mul, div)
 		rowOn[int16]("int16", 8, a, -128, ovf, add, sub, mul, div)
@@ -179,6 +203,54 @@ func witnessOn[N overflow.Number](tname string, s mbt.Step, conv func(*big.Int) 
 			expR = conv(bigOf(s, o.r))
 		}
 		checkOp(tname, o.op, a, b, expOk, expR, origin)
+	}
+}
+
+// witnessOpOn: one operation of one Apalache model (class-coverage guard of OverflowB: a pair of a class the
+// sweep did not reach, with the required outcome computed by the solver).
+func witnessOpOn[N overflow.Number](tname string, s mbt.Step, conv func(*big.Int) N) {
+	a, b := conv(bigOf(s, "a")), conv(bigOf(s, "b"))
+	expOk := s.Bool("ok")
+	var expR N
+	if expOk {
+		expR = conv(bigOf(s, "r"))
+	}
+	checkOp(tname, opBytes[s.Int("op")], a, b, expOk, expR, fmt.Sprintf("guard witness class %d", s.Int("cls")))
+}
+
+func doWitnessOp(s mbt.Step) {
+	w, signed := s.Int("w"), s.Bool("signed")
+	switch {
+	case signed && w == 8:
+		witnessOpOn("int8", s, convS[int8])
+		witnessOpOn("~int8", s, convS[nI8])
+	case signed && w == 16:
+		witnessOpOn("int16", s, convS[int16])
+		witnessOpOn("~int16", s, convS[nI16])
+	case signed && w == 32:
+		witnessOpOn("int32", s, convS[int32])
+		witnessOpOn("~int32", s, convS[nI32])
+	case signed && w == 64:
+		witnessOpOn("int64", s, convS[int64])
+		witnessOpOn("int", s, convS[int])
+		witnessOpOn("~int64", s, convS[nI64])
+		witnessOpOn("~int", s, convS[nI])
+	case !signed && w == 8:
+		witnessOpOn("uint8", s, convU[uint8])
+		witnessOpOn("~uint8", s, convU[nU8])
+	case !signed && w == 16:
+		witnessOpOn("uint16", s, convU[uint16])
+		witnessOpOn("~uint16", s, convU[nU16])
+	case !signed && w == 32:
+		witnessOpOn("uint32", s, convU[uint32])
+		witnessOpOn("~uint32", s, convU[nU32])
+	case !signed && w == 64:
+		witnessOpOn("uint64", s, convU[uint64])
+		witnessOpOn("uint", s, convU[uint])
+		witnessOpOn("~uint64", s, convU[nU64])
+		witnessOpOn("~uint", s, convU[nU])
+	default:
+		mbt.Die("no Go type of width %d", w)
 	}
 }
 
@@ -247,6 +319,26 @@ func doCase(x string) {
 		caseOn("uint64", c, convU[uint64])
 	case "uint":
 		caseOn("uint", c, convU[uint])
+	case "~int8":
+		caseOn("~int8", c, convS[nI8])
+	case "~int16":
+		caseOn("~int16", c, convS[nI16])
+	case "~int32":
+		caseOn("~int32", c, convS[nI32])
+	case "~int64":
+		caseOn("~int64", c, convS[nI64])
+	case "~int":
+		caseOn("~int", c, convS[nI])
+	case "~uint8":
+		caseOn("~uint8", c, convU[nU8])
+	case "~uint16":
+		caseOn("~uint16", c, convU[nU16])
+	case "~uint32":
+		caseOn("~uint32", c, convU[nU32])
+	case "~uint64":
+		caseOn("~uint64", c, convU[nU64])
+	case "~uint":
+		caseOn("~uint", c, convU[nU])
 	default:
 		mbt.Die("unknown type in case")
 	}
@@ -260,6 +352,10 @@ func main() {
 		mbt.Flush()
 		return
 	}
+	if f.Mode == "sweep" {
+		doSweep(f)
+		return
+	}
 	behs, err := mbt.ReadBehaviours(f.In)
 	if err != nil {
 		mbt.Die("%v", err)
@@ -271,6 +367,9 @@ func main() {
 			case "Row":
 				doRow(s)
 				rows++
+			case "WitnessOp":
+				doWitnessOp(s)
+				wit++
 			case "Witness":
 				doWitness(s)
 				wit++
@@ -283,6 +382,6 @@ func main() {
 		}
 	}
 	mbt.Summary(map[string]any{"replays": rows + wit, "rows": rows, "witnesses": wit, "evaluations": nEval,
-		"expected_panics_seen": nPanics, "mismatches": nMis})
+		"expected_panics_seen": nPanics, "mismatches": nMis, "evaluator_vs_table": nOracle})
 	mbt.Flush()
 }
